@@ -24,7 +24,7 @@ import Rtp.Model.Ntp
 import Rtp.Pred.C17
 import Rtp.Pred.C18
 namespace Rtp.Kinds.Ext
-open Rtp Rtp.Proto Rtp.Model.Ext Rtp.Pred.C17
+open Rtp Rtp.Proto Rtp.Model.ExtCodecs Rtp.Pred.C17
 
 /-! ### C17 -/
 
